@@ -255,6 +255,11 @@ class Layer(BaseObject):
 
     def _insertGlyph(self, glyph, beginObservations=True):
         name = glyph.name
+        replacedGlyph = self._glyphs.get(name)
+        if replacedGlyph is not None and replacedGlyph is not glyph:
+            # the glyph object stored under this name is being replaced,
+            # it must no longer be observed by (or point to) this layer
+            self.endSelfGlyphNotificationObservation(replacedGlyph)
         self._glyphs[name] = glyph
         if name in self._scheduledForDeletion:
             del self._scheduledForDeletion[name]
